@@ -79,19 +79,22 @@ fn schema_tree(rng: &mut Rng, m: usize) -> (String, AffTree<2>) {
     }
 }
 
-fn fault_plan(rng: &mut Rng, enabled: bool) -> (String, HashMap<usize, LpFault>) {
+fn fault_plan(rng: &mut Rng, enabled: bool, wide: bool) -> (String, HashMap<usize, LpFault>) {
     let mut plan = HashMap::new();
     let mut s = String::new();
     let mut items = Vec::new();
     if enabled && rng.chance(3, 4) {
         let k = 1 + rng.below(4);
         for _ in 0..k {
-            let call = rng.below(14);
-            let (name, f) = match rng.below(4) {
+            let call = rng.below(if wide { 6 } else { 14 });
+            // histories with a wide domain bound: mostly small perturbations (far above the containment slack of
+            // 1e-8, far below the bound)
+            let kind = if wide && rng.chance(2, 3) { 2 } else { rng.below(4) };
+            let (name, f) = match kind {
                 0 => ("E".to_string(), LpFault::Error),
                 1 => ("U".to_string(), LpFault::Unbounded),
                 2 => {
-                    let d = *rng.pick(&[0.5, -0.5, 1e-3, 4.0]);
+                    let d = if wide { *rng.pick(&[(2.0f64).powi(-16), -(2.0f64).powi(-16), (2.0f64).powi(-15), -(2.0f64).powi(-18)]) } else { *rng.pick(&[0.5, -0.5, 1e-3, 4.0]) };
                     (format!("P {}", enc::num(d)), LpFault::Perturb(d))
                 }
                 _ => ("F".to_string(), LpFault::FarOff),
@@ -156,6 +159,7 @@ pub fn case(rng: &mut Rng, w: &Weights, tag: &str) -> String {
     write!(out, "HIST {} {} ", tag, enc::num(1e-8)).unwrap();
     // constructor
     let ctor = if w.palette > 0 && rng.chance(3, 4) { 5 } else { rng.below(6) };
+    let mut wide = false;
     let mut t: AffTree<2> = match ctor {
         0 => {
             m = n;
@@ -172,7 +176,26 @@ pub fn case(rng: &mut Rng, w: &Weights, tag: &str) -> String {
         2 | 3 => {
             m = 1 + rng.below(3);
             let nrows = 1 + rng.below(3);
-            let p = rand_poly(rng, nrows, n);
+            let mut p = rand_poly(rng, nrows, n);
+            // fault histories: now and then one wide domain bound (a bias of 2^12, first row = decision at the root, next to rows of ordinary size; not larger: at a vertex on a bound of
+            // 2^20 binary64 cannot decide the containment slack of 1e-8 any more), so
+            // that a containment test whose slack grows with the largest bias would let perturbed points through
+            if w.faults && rng.chance(1, 2) {
+                wide = true;
+                let j = rng.below(n);
+                let mut r = Array1::<f64>::zeros(n);
+                r[j] = if rng.chance(1, 2) { 1.0 } else { -1.0 };
+                // first row = decision at the root: the bound is on the path of every node below its closed side
+                let mut mat = Array2::<f64>::zeros((0, n));
+                let mut bias = Array1::<f64>::zeros(0);
+                mat.push_row(r.view()).unwrap();
+                bias.append(ndarray::Axis(0), ndarray::arr1(&[(2.0f64).powi(12)]).view()).unwrap();
+                for (row, b) in p.mat.rows().into_iter().zip(p.bias.iter()) {
+                    mat.push_row(row).unwrap();
+                    bias.append(ndarray::Axis(0), ndarray::arr1(&[*b]).view()).unwrap();
+                }
+                p = Polytope::from_mats(mat, bias);
+            }
             let ft = rand_aff(rng, m, n);
             let ff = if rng.chance(1, 2) { Some(rand_aff(rng, m, n)) } else { None };
             out.push_str("from_poly ");
@@ -235,7 +258,7 @@ pub fn case(rng: &mut Rng, w: &Weights, tag: &str) -> String {
         }
         out.push_str(" ; ");
         let mut pick = rng.next() % total;
-        let (plan_s, plan) = fault_plan(rng, w.faults);
+        let (plan_s, plan) = fault_plan(rng, w.faults, wide);
         let mut opdesc = String::new();
         // build the operation as a closure over a clone, run it under the hooks
         let mut next = t.clone();
